@@ -2,6 +2,7 @@ import ChythonModel.Proofs.C01Total
 import ChythonModel.Proofs.C01Chiral
 import ChythonModel.Proofs.C01Check
 import ChythonModel.Proofs.C01Rename
+import ChythonModel.Proofs.C01ChiralFull
 /-!
 # C01 — canonical SMILES, equality and hash depend on structure only
 
@@ -294,6 +295,75 @@ theorem atoms_order_renaming_exact (h : TupleHash) {π : Nat → Nat} (hπ : Fun
     atomsOrder h (renMol π m) = (atomsOrder h m).map (mapKeys π) :=
   atomsOrder_rename h hπ m
 
+/-! ## `_chiral_morgan` with tetrahedral, cis/trans **and** allene labels (`Model/C01Chiral.lean`; driver ops `cfull`, `cumul`) -/
+
+open ChythonModel.Model.ChiralFull in
+/-- the two nested loops of `MoleculeStereo.cumulenes` (`while terminals`, `while m not in terminals`) end within the fuel
+    the model gives them (every inner step empties one `adj` set, every outer step removes a terminal) -/
+theorem cumulenes_fuel_suffices (dbl : Nat → Bool) (mol : MolView) : cumulenes dbl mol ≠ .error .fuelOut :=
+  cumulenes_fuel dbl mol
+
+open ChythonModel.Model.ChiralMorgan ChythonModel.Model.ChiralFull in
+/-- the `while True` loop of `__differentiation` with all three blocks ends within the fuel given: a pass that changes
+    `morgan` discards a member of `atoms_stereo`, `cis_trans_stereo` or `allenes_stereo`; `fuelOut` is never the answer -/
+theorem chiral_full_fuel_suffices (h : TupleHash) (single dbl : Nat → Bool) (mol : MolView) (labels : List (Nat × Bool)) :
+    chiralFull h single dbl mol labels ≠ .fuelOut :=
+  chiralFull_fuel h single dbl mol labels
+
+open ChythonModel.Model.ChiralMorgan ChythonModel.Model.ChiralFull in
+/-- the full model **extends** the tetrahedral-only model: wherever `chiralMorgan` answers (anything but `notModelled`),
+    `chiralFull` gives the same answer — so every theorem about `chiralMorgan` above is a theorem about the function the
+    driver runs for `cfull`. (Hypothesis `hT`: the double-bond tables of the molecule can be computed; the old model never
+    looks at them, the code and the full model do.) -/
+theorem chiral_full_extends_tetrahedral (h : TupleHash) (single dbl : Nat → Bool) (mol : MolView)
+    (labels : List (Nat × Bool)) (T : Tables) (terminals : List (Nat × (Nat × Nat)))
+    (hT : tablesOf single dbl mol labels = .ok (T, terminals))
+    (hm : chiralMorgan h single mol labels ≠ .notModelled) :
+    chiralFull h single dbl mol labels = chiralMorgan h single mol labels :=
+  chiralFull_extends h single dbl mol labels T terminals hT hm
+
+open ChythonModel.Model.ChiralMorgan ChythonModel.Model.ChiralFull ChythonModel.Model.Stereo in
+/-- **no two labelled stereo elements of one kind share a grouping key** of the first pass of `__differentiation` over
+    `atoms_order` (`r0`): the labelled tetrahedral atoms have pairwise different classes, the labelled double bonds
+    pairwise different `min(morgan[n], morgan[m])` of their terminals, the labelled allene centres pairwise different
+    classes — and all the lookups of `_chiral_morgan` before the loop succeed -/
+def InequivalentElements (h : TupleHash) (single dbl : Nat → Bool) (mol : MolView) (labels : List (Nat × Bool))
+    (r0 : List (Nat × Nat)) : Prop :=
+  atomsOrder h mol = some r0 ∧
+  ∃ (tet : List Nat) (T : Tables) (terminals : List (Nat × (Nat × Nat))) (pairs : List (Nat × Nat))
+    (keyedT : List (Nat × Int)) (keyedC : List (CTItem × Int)) (keyedA : List (Nat × Int)),
+    tetrahedrons mol = .ok tet ∧ tablesOf single dbl mol labels = .ok (T, terminals) ∧
+    exMapM (getKey terminals) (stereoBondAtoms mol.bonds) = .ok pairs ∧
+    exMapM (keyOf (toWeights r0)) ((labels.map (·.1)).filter tet.contains) = .ok keyedT ∧ (keyedT.map (·.2)).Nodup ∧
+    exMapM (ctKey (toWeights r0)) (dedupPairs pairs) = .ok keyedC ∧ (keyedC.map (·.2)).Nodup ∧
+    exMapM (keyOf (toWeights r0)) ((labels.map (·.1)).filter fun n => !tet.contains n) = .ok keyedA ∧
+    (keyedA.map (·.2)).Nodup
+
+open ChythonModel.Model.ChiralMorgan ChythonModel.Model.ChiralFull in
+/-- **labels on pairwise inequivalent stereo elements of any kind do not change the classes**: all groups of the three
+    blocks are singletons, nothing is updated, `_chiral_morgan = atoms_order` — whatever the signs of the labels -/
+theorem chiral_full_is_atoms_order_of_inequivalent_elements (h : TupleHash) (single dbl : Nat → Bool) (mol : MolView)
+    (labels : List (Nat × Bool)) (r0 : List (Nat × Nat)) (hie : InequivalentElements h single dbl mol labels r0) :
+    chiralFull h single dbl mol labels = .ranks r0 := by
+  obtain ⟨hr, tet, T, terminals, pairs, kT, kC, kA, ht, hT, hp, hkt, hdt, hkc, hdc, hka, hda⟩ := hie
+  exact chiralFull_distinct h single dbl mol labels r0 tet T terminals pairs kT kC kA hr ht hT hp hkt hdt hkc hdc hka hda
+
+open ChythonModel.Model.ChiralMorgan ChythonModel.Model.ChiralFull in
+/-- … hence for such molecules (tetrahedral, cis/trans and allene labels alike) the writer's weights are a function of the
+    structure alone: **any injective renumbering `π`, any insertion order of atoms, rows and neighbours, any hash function,
+    any re-expression of the stored label signs** (they are relative to insertion order). -/
+theorem chiral_full_invariant_of_inequivalent_elements (h : TupleHash) (single dbl : Nat → Bool) {π : Nat → Nat}
+    (hπ : Function.Injective π) {m m' : MolView} (hk : KeysOK m) (hmm : MolEq π m m')
+    {labels labels' : List (Nat × Bool)} {r0 r0' : List (Nat × Nat)}
+    (hie : InequivalentElements h single dbl m labels r0) (hie' : InequivalentElements h single dbl m' labels' r0') :
+    ChiralRel π (chiralFull h single dbl m labels) (chiralFull h single dbl m' labels') := by
+  rw [chiral_full_is_atoms_order_of_inequivalent_elements h single dbl m labels r0 hie,
+      chiral_full_is_atoms_order_of_inequivalent_elements h single dbl m' labels' r0' hie']
+  have he := atoms_order_equivariant h hπ hk hmm
+  rw [hie.1, hie'.1] at he
+  cases he with
+  | some hrr => exact .ranks hrr
+
 /-! ## no exception on well-formed input; `Element.__hash__` never hashes `None` -/
 
 /-- (regenerated table) every optional attribute in `Element.__hash__` is written `… or 0` -/
@@ -498,6 +568,65 @@ example : ChiralMorgan.chiralMorgan toyHash (fun _ => true) exMeso [(2, true), (
 /-- … and the renamed molecule gives the renamed result -/
 example : ChiralMorgan.chiralMorgan toyHash (fun _ => true) (renMol (· + 10) exMeso) [(12, true), (13, true)] =
     .ranks [(14, 1), (11, 2), (16, 3), (15, 4), (13, 5), (12, 6)] := by decide +kernel
+
+
+/-! ### the full `_chiral_morgan` model on concrete molecules (toy hash; `dblT` = C, N, O form double bonds) -/
+
+def dblT (z : Nat) : Bool := z == 6 || z == 7 || z == 8
+
+/-- (E)-1-fluoropropene F1–C2=C3–C4, label on the double bond (stored on both directions of the bond) -/
+def exE : MolView :=
+  ⟨[(1, { z := 9, implH := some 0 }), (2, { z := 6, implH := some 1 }), (3, { z := 6, implH := some 1 }),
+    (4, { z := 6, implH := some 3 })],
+   [(1, [(2, ⟨1, none⟩)]), (2, [(1, ⟨1, none⟩), (3, ⟨2, some true⟩)]), (3, [(2, ⟨2, some true⟩), (4, ⟨1, none⟩)]),
+    (4, [(3, ⟨1, none⟩)])]⟩
+
+example : ChiralFull.cumulenes dblT exE = .ok [[2, 3]] := by decide +kernel
+
+/-- the hypothesis of the invariance theorem is satisfiable by a molecule with a labelled double bond -/
+example : InequivalentElements toyHash (fun _ => true) dblT exE [] [(4, 1), (1, 2), (3, 3), (2, 4)] := by
+  refine ⟨by decide +kernel, [4],
+    ⟨[], [], [((2, 3), ⟨1, 4, none, none⟩)], [], [(2, (2, 3)), (3, (2, 3))], exE⟩, [(2, (2, 3)), (3, (2, 3))],
+    [(2, 3), (2, 3)], [], [((3, (2, 3)), 3)], [], by decide +kernel, by decide +kernel, by decide +kernel,
+    by decide +kernel, by decide, by decide +kernel, by decide, by decide +kernel, by decide⟩
+
+/-- two components F–CH=CH–Cl, the first labelled `true`, the second `s` -/
+def exEZ (s : Bool) : MolView :=
+  ⟨[(1, { z := 9, implH := some 0 }), (2, { z := 6, implH := some 1 }), (3, { z := 6, implH := some 1 }),
+    (4, { z := 17, implH := some 0 }), (5, { z := 9, implH := some 0 }), (6, { z := 6, implH := some 1 }),
+    (7, { z := 6, implH := some 1 }), (8, { z := 17, implH := some 0 })],
+   [(1, [(2, ⟨1, none⟩)]), (2, [(1, ⟨1, none⟩), (3, ⟨2, some true⟩)]), (3, [(2, ⟨2, some true⟩), (4, ⟨1, none⟩)]),
+    (4, [(3, ⟨1, none⟩)]),
+    (5, [(6, ⟨1, none⟩)]), (6, [(5, ⟨1, none⟩), (7, ⟨2, some s⟩)]), (7, [(6, ⟨2, some s⟩), (8, ⟨1, none⟩)]),
+    (8, [(7, ⟨1, none⟩)])]⟩
+
+/-- the cis/trans block really runs: like configurations leave `atoms_order` … -/
+example : ChiralFull.chiralFull toyHash (fun _ => true) dblT (exEZ true) [] =
+    .ranks [(1, 1), (5, 1), (4, 2), (8, 2), (2, 3), (6, 3), (3, 4), (7, 4)] := by decide +kernel
+/-- … an E/Z pair splits every class (the R/S-pair update of the cis/trans block) -/
+example : ChiralFull.chiralFull toyHash (fun _ => true) dblT (exEZ false) [] =
+    .ranks [(1, 1), (5, 2), (4, 3), (8, 4), (2, 5), (6, 6), (3, 7), (7, 8)] := by decide +kernel
+
+/-- two components penta-2,3-diene CH3–CH=C=CH–CH3, labels on the two allene centres -/
+def exAl : MolView :=
+  ⟨[(1, { z := 6, implH := some 3 }), (2, { z := 6, implH := some 1 }), (3, { z := 6, implH := some 0 }),
+    (4, { z := 6, implH := some 1 }), (5, { z := 6, implH := some 3 }),
+    (11, { z := 6, implH := some 3 }), (12, { z := 6, implH := some 1 }), (13, { z := 6, implH := some 0 }),
+    (14, { z := 6, implH := some 1 }), (15, { z := 6, implH := some 3 })],
+   [(1, [(2, ⟨1, none⟩)]), (2, [(1, ⟨1, none⟩), (3, ⟨2, none⟩)]), (3, [(2, ⟨2, none⟩), (4, ⟨2, none⟩)]),
+    (4, [(3, ⟨2, none⟩), (5, ⟨1, none⟩)]), (5, [(4, ⟨1, none⟩)]),
+    (11, [(12, ⟨1, none⟩)]), (12, [(11, ⟨1, none⟩), (13, ⟨2, none⟩)]), (13, [(12, ⟨2, none⟩), (14, ⟨2, none⟩)]),
+    (14, [(13, ⟨2, none⟩), (15, ⟨1, none⟩)]), (15, [(14, ⟨1, none⟩)])]⟩
+
+example : ChiralFull.cumulenes dblT exAl = .ok [[2, 3, 4], [12, 13, 14]] := by decide +kernel
+/-- the allene block: like / unlike pair -/
+example : ChiralFull.chiralFull toyHash (fun _ => true) dblT exAl [(3, true), (13, true)] =
+    .ranks [(1, 1), (5, 1), (11, 1), (15, 1), (2, 2), (4, 2), (12, 2), (14, 2), (3, 3), (13, 3)] := by decide +kernel
+example : ChiralFull.chiralFull toyHash (fun _ => true) dblT exAl [(3, true), (13, false)] =
+    .ranks [(1, 1), (5, 1), (11, 2), (15, 2), (2, 3), (4, 3), (12, 4), (14, 4), (3, 5), (13, 6)] := by decide +kernel
+/-- `chiral_full_extends_tetrahedral` is not vacuous: the tables of the meso diol exist and the old model answers -/
+example : (match ChiralFull.tablesOf (fun _ => true) dblT exMeso [(2, true), (3, true)] with
+    | .ok _ => true | .error _ => false) = true := by decide +kernel
 
 /-- the hypothesis of `smiles_invariant_of_discrete_partial` is satisfiable: a (toy) writer that prints an
     order-independent digest of the rank-keyed molecule -/
